@@ -4,6 +4,7 @@ import codec_common as CC
 
 def tasks(tier, seed):
     ts = CC.rt_tasks(tier, kinds={'framing', 'stale_dependence', 'memory', 'harness', 'trap', 'unreachable'})
+    ts += CC.big_tasks(tier, kinds={'framing', 'stale_dependence', 'memory', 'harness', 'trap', 'unreachable'})
     meta = dict(
         level='model_checking',
         explanation='llsym executes the real <Type>::write / ::read / calculateObjectSize / header-base write of every '
